@@ -37,12 +37,15 @@ U64 = (1 << 64) - 1
 # implementation ops (public API only)
 # --------------------------------------------------------------------------------------------
 def _conf(a) -> PduConfig:
+    # forms.conf = "int" / "bool": the five flags as plain ints / bools of the same value (see props/c05.py `_conf`)
+    cf = (a.get("forms") or {}).get("conf")
+    _f = (lambda cls, v: int(v)) if cf == "int" else (lambda cls, v: bool(v)) if cf == "bool" else _m
     return PduConfig(source_entity_id=UnsignedByteField(a["src_v"], a["src_w"]),
                      dest_entity_id=UnsignedByteField(a["dst_v"], a["dst_w"]),
                      transaction_seq_num=UnsignedByteField(a["seq_v"], a["seq_w"]),
-                     trans_mode=_m(TransmissionMode, a["mode"]), file_flag=_m(LargeFileFlag, a["large"]),
-                     crc_flag=_m(CrcFlag, a["crc"]), direction=_m(Direction, a["dir"]),
-                     seg_ctrl=_m(SegmentationControl, a["segctrl"]))
+                     trans_mode=_f(TransmissionMode, a["mode"]), file_flag=_f(LargeFileFlag, a["large"]),
+                     crc_flag=_f(CrcFlag, a["crc"]), direction=_f(Direction, a["dir"]),
+                     seg_ctrl=_f(SegmentationControl, a["segctrl"]))
 
 
 def _hdr_fields(h) -> Dict[str, Any]:
